@@ -25,7 +25,8 @@ PROP = "C15"
 TOKENS = [("word", "Some words."), ("empty", ""), ("close", "a */ b"), ("open", "a /* b"), ("glob", "see **/*.rs"),
           ("exporttype", "export type Zed = 1;"), ("dquote", 'say "hi"'), ("backslash", "back\\slash\\"), ("unicode", "naïve 日本語 ß"),
           ("long", "x" * 300), ("slashes", "// not a comment"), ("star", " * starred")]
-SYNTAX = ["line", "attr", "block"]
+SYNTAX = ["line", "attr", "block", "mixed"]
+TAIL = "tail words"
 POSITIONS = {
     "container": ("$ pub struct @ { pub f: i32 }", "container"),
     "container_enum": ("$ pub enum @ { A, B { x: i32 } }", "container"),
@@ -45,13 +46,15 @@ def doc_attrs(lines, syntax):
         return '"' + s.replace("\\", "\\\\").replace('"', '\\"').replace("\n", "\\n") + '"'
     if syntax == "block":
         return "#[doc = %s]" % lit(" " + "\n".join(lines) + " ")
+    if syntax == "mixed":
+        return "#[doc = %s] #[doc = %s]" % (lit(" " + "\n".join(lines) + " "), lit(" " + TAIL))
     return " ".join("#[doc = %s]" % lit((" " if syntax == "line" else "") + l) for l in lines)
 
 
 def build(tier):
     q = tier == "quick"
     cfgp = os.path.join(vlib.BUILD, "docs-cfg.json")
-    json.dump({"tokens": [{"name": n, "chars": c04.chars(t)} for n, t in TOKENS], "maxlines": 2 if q else 3,
+    json.dump({"tokens": [{"name": n, "chars": c04.chars(t)} for n, t in TOKENS], "maxlines": 2 if q else 3, "tail": c04.chars(TAIL),
                "syntaxes": SYNTAX, "positions": list(POSITIONS)}, open(cfgp, "w"))
     r = vlib.run_tlc("MC_Docs", "MC_Docs.cfg", workers=12, env={"VERIF_CFG": cfgp}, timeout=1800, metatag="c15p")
     vlib.tlc_must_succeed(r, "MC_Docs")
@@ -68,8 +71,9 @@ def build(tier):
         n += 1
         lines = [TOKENS[t - 1][1] for t in c["lines"]]
         tmpl, key = POSITIONS[c["pos"]]
+        doclines = lines + ([TAIL] if c["syntax"] == "mixed" else [])
         src = "#[derive(TS)] " + tmpl.replace("$", doc_attrs(lines, c["syntax"])).replace("@", name)
-        units.append(corpus.Unit(name, src, [], serde=False, meta={"case": c, "lines": lines, "key": key}))
+        units.append(corpus.Unit(name, src, [], serde=False, meta={"case": c, "lines": doclines, "key": key}))
     return units, r
 
 
@@ -91,7 +95,7 @@ def merged_units(tier):
                          '#[derive(TS)] #[ts(export_to = "shared_@.ts")] pub struct Zz@ { pub z: Option<Box<Mm@>> } '
                          '#[derive(TS)] pub struct Root@ { pub m: Mm@, pub a: Aa@, pub z: Zz@ }') % (doc_c, doc_f)
                 units.append(corpus.Unit(name, items.replace("@", name), [], serde=False,
-                                         meta={"root_ty": "Root" + name, "lines": lines, "syntax": syntax, "docpos": docpos}))
+                                         meta={"root_ty": "Root" + name, "lines": lines + ([TAIL] if syntax == "mixed" else []), "syntax": syntax, "docpos": docpos}))
     for docpos in ("none",):
         name = "MGbase"
         items = ('#[derive(TS)] #[ts(export_to = "shared_@.ts")] pub struct Mm@ { pub f: i32 } '
@@ -183,7 +187,7 @@ def run(tier):
            "samples": [{"case": m[0], "text": m[2][:300]} for m in meta[:: max(1, len(meta) // 6)][:6]],
            "cases": len(recs), "merged_file_cases": sum(1 for m in meta if m[0]["merged"]),
            "model_says_not_contained": model_uncontained, "by_position": dict(Counter(m[0]["position"] for m in meta)), "exhaustive": tier != "quick",
-           "rule": "doc texts of <= %d lines over 12 line tokens x 3 syntaxes x 10 positions (quick: all single lines, two-line texts containing an empty line / `*/` / `export type`); + 36 merged-file cases (documented type between two neighbours in a shared file)" % (2 if tier == "quick" else 3)}
+           "rule": "doc texts of <= %d lines over 12 line tokens x 4 syntaxes (/// lines, #[doc] attributes, one block, block + line) x 10 positions (quick: all single lines, two-line texts containing an empty line / `*/` / `export type`); + 64 merged-file cases (documented type between two neighbours in a shared file)" % (2 if tier == "quick" else 3)}
     vlib.write_evidence(PROP, tier, "model_checking", cov,
                         ["doc comments are given to the derive as #[doc = ..] attributes, which is what rustc turns /// and /** */ into",
                          "containment of the text is checked modulo backslashes (an escaped `*/` still counts as the text)"],
